@@ -20,7 +20,7 @@ CAMPAIGNS = [FaultPos("C06", quick=220, thorough=8000), DryReal("C06", quick=600
 
 
 def sanity_gate(tier, total):
-    need = ["fs_break", "fs_remove", "version_reject"]
+    need = ["fs_break", "fs_remove", "fs_unreadable", "version_reject"]
     out = ["fault kind %s never fired" % p for p in need if total["faults"].get(p, 0) == 0]
     if total["counters"].get("control_run_failed", 0) > 0.5 * max(1, total["runs"]):
         out.append("more than half of the control runs failed")
